@@ -54,6 +54,32 @@ func fixedPrograms() []*Chunk {
 			cmd("put", vr("n"))),
 		chunkF(varF("n", lit("0")), cmd("put", cmp(captF(cmd("nop")), lit("k"), captF(setF("n", lit("1")), cmd("put", lit("w"))), captF(cmd("fail", lit("later"))))),
 			cmd("put", vr("n"))),
+		// `compact` ("Replaces consecutive runs of equal values with a single copy"): the first value is always
+		// output, $nil and the other zero values included; witnesses of the seeded change
+		// C15-compact-drops-leading-nil (the "previous value" sentinel was Go nil, so a leading run of $nil vanished)
+		chunk(pipe(cmd("put", vr("nil"), vr("nil"), lit("a")), cmd("compact"))),
+		chunkF(cmd("compact", list(vr("nil"), lit("a"))), cmd("compact", list(vr("nil"))), cmd("compact", list(lit("a"), vr("nil"), vr("nil"))),
+			cmd("compact", list(vr("false"), vr("false"), lit(""), lit(""), list(), list(), &Expr{K: "map"}, &Expr{K: "map"}, captF(cmd("num", lit("0"))), captF(cmd("num", lit("0"))), lit("0")))),
+		chunkF(cmd("compact", list(lit(""), lit("a"))), cmd("compact", list(vr("false"), lit("a"))), cmd("compact", list(list(), lit("a"))), cmd("compact", list(&Expr{K: "map"}, lit("a"))),
+			cmd("compact", list(captF(cmd("num", lit("0"))), lit("a"))), cmd("compact", list(lit("0"), lit("a"))), cmd("compact", list(lit(""))), cmd("compact", list(lit("a"), lit(""), lit("")))),
+		chunk(pipe(varF("x", vr("nil"))), pipe(cmd("put", captF(&Form{K: "logic", Sub: "coalesce", Args: []*Expr{vr("x")}}), lit("b")), cmd("compact"))),
+		chunk(pipe(cmd("put"), cmd("compact")), pipe(cmd("put", lits("a", "a", "b", "b", "c")...), cmd("compact")), pipe(cmd("put", lits("a", "b", "a")...), cmd("compact")),
+			pipe(cmd("compact", lit("aabbc")))),
+		// documentation examples of the container builtins
+		chunkF(cmd("make-map", list(list(lits("k", "v")...))), cmd("make-map", list(list(lits("k", "v1")...), list(lits("k", "v2")...))), cmd("make-map", list(lits("aA", "bB")...)),
+			cmd("conj", list(), lit("a")), cmd("conj", list(lits("a", "b")...), lit("c"), lit("d")),
+			cmd("assoc", list(lits("foo", "bar", "quux")...), lit("0"), lit("lorem")), cmd("assoc", list(lits("foo", "bar", "quux")...), lit("-1"), lit("ipsum")),
+			cmd("assoc", mapE(lit("k"), lit("v")), lit("k"), lit("v2")), cmd("assoc", mapE(lit("k"), lit("v")), lit("k2"), lit("v2")),
+			cmd("dissoc", mapE(lit("foo"), lit("bar"), lit("lorem"), lit("ipsum")), lit("foo")), cmd("dissoc", mapE(lit("foo"), lit("bar")), lit("k"))),
+		chunkF(cmd("has-value", mapE(lit("k1"), lit("v1")), lit("v1")), cmd("has-value", mapE(lit("k1"), lit("v1")), lit("k1")), cmd("has-value", list(lits("v1", "v2")...), lit("v1")),
+			cmd("has-value", lit("ab"), lit("b")), cmd("has-value", lit("ab"), lit("c")),
+			cmd("has-key", mapE(lit("k1"), lit("v1")), lit("k1")), cmd("has-key", list(lits("v1", "v2")...), lit("2")), cmd("has-key", list(lits("v1", "v2")...), lit("0..2")),
+			cmd("has-key", list(lits("v1", "v2")...), lit("0..3")), cmd("has-key", lit("ab"), lit("1")), cmd("has-key", lit("ab"), lit("2")), cmd("has-key", lit("ab"), lit("0..2")),
+			cmd("has-key", lit("ab"), lit("0..3"))),
+		chunk(pipe(cmd("keys", mapE(lit("a"), lit("foo"), lit("b"), lit("bar"), lit("c"), lit("baz"))), cmd("order")), pipe(cmd("repeat", lit("0"), lit("lorem"))), pipe(cmd("repeat", lit("4"), lit("NAN"))),
+			pipe(cmd("count", mapE(lit("foo"), lit("bar"), lit("lorem"), lit("ipsum")))), pipe(cmd("count", lit("lorem"))),
+			pipe(cmd("is", lit("a"), lit("a"))), pipe(cmd("is", lit("a"), lit("b"))), pipe(cmd("is")), pipe(cmd("range", lit("2")), cmd("take", lit("10"))), pipe(cmd("range", lit("2")), cmd("drop", lit("10")))),
+		chunkF(cmd("dissoc", list(lit("k")), lit("0"))),
 		// "Closure semantics": make-adder
 		chunkF(fnF("make-adder", lamE(nil, "", nil, varF("n", lit("0")),
 			cmd("put", lamE(nil, "", nil, cmd("put", vr("n"))), lamE(nil, "", nil, setF("n", captF(cmd("+", vr("n"), lit("1")))))))),
